@@ -33,14 +33,20 @@ CHECKS = {
          "unspecified zone (flagged by the spec, skipped).",
          "§3, §4 C03"),
  "C05": ("model_checking",
-         "TLC-evaluated reference semantics (provider chain along the rendered structure in DjcSemantics.tla) + implementation-shaped refcount machine DjcProvide.tla model-checked + exhaustive 'provide' pages replayed + TLC validation of random programs and same-process render histories",
+         "TLC-evaluated reference semantics (provider chain along the rendered structure in DjcSemantics.tla) + implementation-shaped refcount machines (scenario machine DjcProvide.tla model-checked; general machine ProvideRefs.tla with an inductive invariant proved by TLAPS for arbitrary sets, checked inductive by TLC and Apalache) + exhaustive 'provide' pages replayed + TLC validation of random programs, same-process render histories and step-by-step operation traces of the real provide functions (Trace_ProvideRefs.tla)",
          "The `prov` threading of the TLA+ reference semantics decides every inject() result (nearest provider of the rendered structure, default, KeyError, "
          "exact kwargs). DjcProvide.tla models provide_cache / provide_references / all_reference_ids with one action per critical section in the "
          "deferred call order; TLC checks InjectSound, Quiescent and EntryDeletedOnlyWhenDone for all scenarios (and refutes the pre-fix variant as a "
          "vacuity guard). Every enumerated page (providers, two keys, loops, consumers with/without default, provider around a slot) is replayed in both "
-         "modes; random programs and histories of 25-40 consecutive renders in one process are validated, with the registries inspected after each render.",
-         "A {% provide %} wrapped around a {% fill %} tag is outside the quantifier. KeyError compared by class. Refcount machine bound to the code through "
-         "observable inject results and registry residue, not by a step-by-step trace.",
+         "modes; random programs and histories of 25-40 consecutive renders in one process are validated, with the registries inspected after each render. "
+         "ProvideRefs.tla is the general machine (any providers / referrers, any call order, one action per critical section of perfutil/provide.py): "
+         "IndInv is proved inductive with TLAPS for arbitrary sets (30 obligations), re-checked by TLC from all IndInv states (2x2) and symbolically by "
+         "Apalache (3x4, with a refuted negative control), and implies NoKeyError / OpenAlive / InjectSound / Quiescent; every call the real functions make "
+         "during the histories is recorded at its linearization point (under the library's own lock, arguments + result + full registry state) and "
+         "validated step by step by TLC against that machine.",
+         "A {% provide %} wrapped around a {% fill %} tag is outside the quantifier. KeyError compared by class. In the operation traces only clauses that "
+         "contradict the property directly (a registry function raised, inject under a visible provider found nothing, dangling / empty reference sets, residue at "
+         "the end of a render) alarm; a state that merely differs from the specification's transformer is counted as model drift (0 on this tree).",
          "§4 C05, A.2"),
  "C15": ("model_checking",
          "TLC state graph of Registry.tla (registries x libraries x formatters) with every transition exported and replayed on real ComponentRegistry/Library objects + TLC trace validation of random histories + implementation-shaped RegistryImpl refinement",
@@ -72,13 +78,15 @@ CHECKS = {
          "themselves (pair inheritance is C16).",
          "§4 C04"),
  "C06": ("fault_enumeration",
-         "exhaustive per-program enumeration of failing user-code invocations on the real library + TLC model checking of the implementation-shaped DjcRenderMachine.tla (Quiescent under every fault point, nested render roots) + TLC validation of the recorded callback order and registry sizes of every run (Trace_C06) + DjcSemantics oracle for the render after a failure",
+         "exhaustive per-program enumeration of failing user-code invocations on the real library + TLC model checking of the implementation-shaped DjcRenderMachine.tla (Quiescent under every fault point, nested render roots) + TLC validation of the recorded callback order and registry sizes of every run (Trace_C06) and of the step-by-step operation trace of the provide reference counting of every run (Trace_ProvideRefs against ProvideRefs.tla) + DjcSemantics oracle for the render after a failure",
          "For every generated program a dry run counts the user-code invocations (get_context_data, inject, on_render_before, template tag, on_render_after) and "
          "EVERY index is made to raise, with exception classes rotating over str / int / errno / tuple / multi-line first arguments. Observed from outside: the "
          "very exception object propagates with its class and the component path; all six per-render registries are empty; the Context and a marker value are "
          "unreachable after gc; the next render equals the reference result; 25 repetitions do not grow the live-object count. DjcRenderMachine.tla models "
          "prepare -> placeholder -> queue -> template -> post-render with a failing alternative at every event and the error-path cleanup; TLC checks "
-         "Quiescent for all tree shapes / fault points (and refutes the no-cleanup variant as vacuity guard), and validates every recorded run against it.",
+         "Quiescent for all tree shapes / fault points (and refutes the no-cleanup variant as vacuity guard), and validates every recorded run against it. "
+         "Every call of the provide / inject reference counting made by the dry run and by every fault run is recorded at its linearization point and "
+         "validated step by step against the general refcount machine ProvideRefs.tla (whose invariant reduces Quiescent to: every register is matched by an unregister).",
          "Fault points are the user-code hooks named above (slot functions via fills); programs whose fault-free render raises or touches a zone are skipped; "
          "memory judged by weakrefs + gc object counts with 40 objects tolerance; sampled programs (not exhaustive over programs).",
          "§4 C06"),
